@@ -66,6 +66,8 @@ def _llvm_family(t):
         return {m.lower().replace("b.cs", "b.hs").replace("b.cc", "b.lo")}, None
     if c == "hint":
         return {"nop"}, None
+    if c == "sve_prefetch":
+        return {m.lower()}, None
     name = [x for x in t if re.match(r"(LDRS?|STR|LDP|STP|LDPSW|prfm)", x)]
     nm = name[0] if name else "?"
     mm = re.match(r"(LDRS|LDR|STR)(-fp)?(\d+)(-to(\d+))?", nm)
@@ -102,7 +104,7 @@ def decoder_crosscheck(ctx, judged_words):
         return
     words = sorted(judged_words)
     inp = "".join(" ".join("0x%02x" % b for b in struct.pack("<I", w)) + "\n" for w in words)
-    p = subprocess.run([exe, "--disassemble", "-triple=aarch64", "-mattr=+v8.4a,+lor,+rcpc-immo,+neon"],
+    p = subprocess.run([exe, "--disassemble", "-triple=aarch64", "-mattr=+v8.4a,+lor,+rcpc-immo,+neon,+sve"],
                        input=inp, capture_output=True, text=True)
     # one word per input line; undecodable lines are reported on stderr by line number, the rest
     # are printed in order (llvm's own re-encoding is not used: it canonicalises ignored bits)
@@ -203,7 +205,7 @@ def run(ctx):
         raise core.ToolError("a disputed repository expectation now agrees with A64.tla: re-triage corpus/c03")
     ctx.extra["repo_test_expectations_replayed"] = {"agree_with_spec": claim_ok, "disputed_and_disagree": len(claim_bad),
                                                     "disputed": sorted({e["cls"] for e in claim_bad})}
-    ctx.extra["bounds"] = {"instances_random": nshard * per, "generator_classes": 20, "window_bytes": 96,
+    ctx.extra["bounds"] = {"instances_random": nshard * per, "generator_classes": 22, "window_bytes": 96,
                            "endianness": "little (2/3) and big (1/3) data; instructions always little-endian"}
     ctx.assumptions += [
         "spec/A64.tla is a transcription of the Arm ARM pseudocode (no emulator grounds it); it is cross-checked by "
